@@ -76,9 +76,19 @@ Proof.
         destruct (p + pc <=? pp + pc + i) eqn:E1; [|lia]. destruct (pp + pc + i <? p + c) eqn:E2; [|lia].
         reflexivity.
       * rewrite znth_app_r by (rewrite zlen_repeat; lia). rewrite zlen_repeat.
-        rewrite IH; [|exact D'|]. 2:{ Show. lia. }
+        rewrite IH; [|exact D'|]. 2:{ set (L := zlen (expand p c gp cl plen)) in *. lia. }
         replace (p + c + (i - Z.of_nat (Z.to_nat (p - pp)) - Z.of_nat (Z.to_nat (c - pc)))) with (pp + pc + i) by lia.
         destruct (pp + pc + i <? p + c) eqn:E2; [lia|]. rewrite andb_false_r. reflexivity.
+Qed.
+
+Lemma cpv_0 pc cl : cpv pc cl 0 = pc.
+Proof. reflexivity. Qed.
+
+Lemma cpv_cons pc c cl j : 0 < j -> cpv pc (c :: cl) j = cpv c cl (j - 1).
+Proof.
+  intros H. unfold cpv. destruct (j <=? 0) eqn:E; [lia|]. destruct (j - 1 <=? 0) eqn:E2.
+  - assert (j - 1 = 0) as -> by lia. apply znth_0.
+  - apply znth_pos. lia.
 Qed.
 
 (** [gapcov] in index form *)
@@ -88,28 +98,22 @@ Lemma gapcov_true gp : forall pc cl x, zlen gp = zlen cl ->
 Proof.
   induction gp as [|p gp IH]; intros pc cl x Hl H; destruct cl as [|c cl]; cbn [gapcov] in H; try discriminate.
   rewrite !zlen_cons in *. apply orb_prop in H. destruct H as [H|H].
-  - exists 0. pose proof (zlen_nonneg gp). rewrite !znth_0. unfold cpv. cbn. lia.
+  - exists 0. pose proof (zlen_nonneg gp). rewrite !znth_0. unfold cpv. change (0 <=? 0) with true. cbv iota. lia.
   - destruct (IH c cl x ltac:(lia) H) as (j & Hj & Hx). exists (j + 1).
-    rewrite !(znth_pos 0 _ _ (j + 1)) by lia. replace (j + 1 - 1) with j by lia.
-    split; [lia|]. unfold cpv in *. destruct (j + 1 <=? 0) eqn:E; [lia|].
-    destruct (j <=? 0) eqn:E2.
-    + assert (j = 0) as -> by lia. change (0 + 1 - 1) with 0. rewrite znth_0. lia.
-    + rewrite (znth_pos 0 c cl (j + 1 - 1)) by lia. replace (j + 1 - 1 - 1) with (j - 1) by lia. lia.
+    rewrite !(znth_pos 0 _ _ (j + 1)) by lia. rewrite cpv_cons by lia.
+    replace (j + 1 - 1) with j by lia. split; lia.
 Qed.
 
 Lemma gapcov_intro gp : forall pc cl x j, zlen gp = zlen cl -> 0 <= j < zlen gp ->
   znth 0 gp j + cpv pc cl j <= x < znth 0 gp j + znth 0 cl j -> gapcov pc gp cl x = true.
 Proof.
-  induction gp as [|p gp IH]; intros pc cl x j Hl Hj Hx; destruct cl as [|c cl]; rewrite ?zlen_cons in *; znil;
-    try (pose proof (zlen_nonneg gp); pose proof (zlen_nonneg cl); lia).
+  induction gp as [|p gp IH]; intros pc cl x j Hl Hj Hx; destruct cl as [|c cl]; rewrite ?zlen_cons in *; znil; try lia;
+    try (pose proof (zlen_nonneg gp); lia); try (pose proof (zlen_nonneg cl); lia).
   cbn [gapcov]. destruct (Z.eq_dec j 0) as [->|Hne].
-  - rewrite !znth_0 in Hx. unfold cpv in Hx. cbn in Hx.
+  - rewrite !znth_0 in Hx. unfold cpv in Hx. change (0 <=? 0) with true in Hx. cbv iota in Hx.
     destruct (p + pc <=? x) eqn:E1; [|lia]. destruct (x <? p + c) eqn:E2; [|lia]. reflexivity.
   - rewrite (IH c cl x (j - 1)); [apply orb_true_r|lia|lia|].
-    rewrite !(znth_pos 0 _ _ j) in Hx by lia. unfold cpv in *.
-    destruct (j <=? 0) eqn:E; [lia|]. destruct (j - 1 <=? 0) eqn:E2.
-    + assert (j = 1) as -> by lia. change (1 - 1) with 0 in Hx. rewrite znth_0 in Hx. lia.
-    + rewrite (znth_pos 0 c cl (j - 1)) in Hx by lia. lia.
+    rewrite !(znth_pos 0 _ _ j) in Hx by lia. rewrite cpv_cons in Hx by lia. exact Hx.
 Qed.
 
 (** the three readings of [abs] for a well-formed map *)
@@ -143,3 +147,773 @@ Section AbsPointwise.
     exfalso. apply (Hno j Hj). unfold gs, ge, P, C, Cp. lia.
   Qed.
 End AbsPointwise.
+
+(** * Part 5: alignment index -> sequence index *)
+
+Section SeqIndex.
+  Variable m : imap.
+  Hypothesis Hwfi : WFi m.
+  Local Notation n := (num_gaps m).
+
+  Lemma ge_mono_le i j : 0 <= i -> i <= j -> j < n -> ge m i <= ge m j.
+  Proof.
+    intros. destruct (Z.eq_dec i j) as [->|]; [lia|]. pose proof (ge_mono m Hwfi i j). lia.
+  Qed.
+
+  Lemma gs_mono_le i j : 0 <= i -> i <= j -> j < n -> gs m i <= gs m j.
+  Proof.
+    intros. destruct (Z.eq_dec i j) as [->|]; [lia|]. pose proof (gs_mono m Hwfi i j). lia.
+  Qed.
+
+  Lemma ge_le_gs i j : 0 <= i -> i < j -> j < n -> ge m i < gs m j.
+  Proof. intros. apply (ge_lt_gs m Hwfi);  lia. Qed.
+
+  Lemma gs_ge j : 0 <= j < n -> 0 <= gs m j < ge m j.
+  Proof. intros. apply (gs_lt_ge m Hwfi);  lia. Qed.
+
+  Lemma gap_unique x j k : 0 <= j < n -> 0 <= k < n ->
+    gs m j <= x < ge m j -> gs m k <= x < ge m k -> j = k.
+  Proof.
+    intros Hj Hk Xj Xk. destruct (Z_lt_dec j k) as [L|L].
+    - pose proof (ge_le_gs j k). lia.
+    - destruct (Z_lt_dec k j) as [L'|L']; [|lia]. pose proof (ge_le_gs k j). lia.
+  Qed.
+
+  (** position of [x] relative to the gaps, as used by the code *)
+  Definition seq_rel (x s : Z) : Prop :=
+    (forall j, 0 <= j < n -> gs m j <= x < ge m j -> s = P m j) /\
+    (forall j, 0 <= j <= n -> (0 < j -> ge m (j - 1) <= x) -> (j < n -> x <= gs m j) -> s = x - Cp m j).
+
+  Lemma gs_0 : gs m 0 = P m 0.
+  Proof. unfold gs. rewrite Cp_0. lia. Qed.
+
+  Lemma seq_index_nn_rel x : 0 <= x -> exists s, seq_index_nn m x = Ok s /\ seq_rel x s.
+  Proof.
+    intros Hx. unfold seq_index_nn.
+    pose proof (n_nonneg m) as Hn.
+    destruct (n =? 0) eqn:En.
+    { cbn [orb]. exists x. split; [reflexivity|]. split.
+      - intros j Hj. lia.
+      - intros j Hj _ _. assert (j = 0) as -> by lia. rewrite Cp_0. lia. }
+    cbn [orb]. change (znth 0 (gap_pos m) 0) with (P m 0).
+    destruct (x <? P m 0) eqn:E0.
+    { exists x. split; [reflexivity|]. split.
+      - intros j Hj Hc. pose proof (gs_mono_le 0 j). rewrite gs_0 in *. lia.
+      - intros j Hj H1 _. destruct (Z.eq_dec j 0) as [->|Hne]; [rewrite Cp_0; lia|].
+        pose proof (ge_mono_le 0 (j - 1)). pose proof (gs_ge 0). rewrite gs_0 in *. lia. }
+    rewrite (zlast_gap_ends m Hwfi) by lia. rewrite (zlast_cum m Hwfi) by lia.
+    destruct (x >=? ge m (n - 1)) eqn:E1.
+    { exists (x - C m (n - 1)). split; [reflexivity|]. split.
+      - intros j Hj Hc. pose proof (ge_mono_le j (n - 1)). lia.
+      - intros j Hj H1 H2. destruct (Z.eq_dec j n) as [->|Hne].
+        + rewrite (Cp_pos m) by lia. reflexivity.
+        + pose proof (gs_ge j). pose proof (ge_mono_le j (n - 1)). lia. }
+    pose proof (ss_left_spec (gap_ends m) x) as (S1 & S2 & S3).
+    rewrite (zlen_gap_ends m Hwfi) in *.
+    set (ix := ss_left (gap_ends m) x) in *.
+    assert (Hix : ix < n).
+    { destruct (Z.eq_dec ix n) as [E|]; [|lia]. specialize (S2 (n - 1)).
+      rewrite (znth_gap_ends m Hwfi) in S2 by lia. lia. }
+    specialize (S3 Hix). rewrite (znth_gap_ends m Hwfi) in S3 by lia.
+    assert (S2' : forall i, 0 <= i < ix -> ge m i < x).
+    { intros i Hi. specialize (S2 i Hi). rewrite (znth_gap_ends m Hwfi) in S2 by lia. exact S2. }
+    rewrite !(pyget_nonneg _ ix) by lia.
+    rewrite (znth_gap_starts m Hwfi) by lia. rewrite (znth_gap_ends m Hwfi) by lia.
+    fold (C m ix). fold (P m ix).
+    destruct (x <? gs m ix) eqn:E2.
+    { assert (Hpos : 0 < ix).
+      { destruct (Z.eq_dec ix 0) as [E|]; [|lia]. rewrite E, gs_0 in E2. lia. }
+      rewrite pyget_nonneg by lia. fold (C m (ix - 1)).
+      exists (x - C m (ix - 1)). split; [reflexivity|]. split.
+      - intros j Hj Hc. exfalso. destruct (Z_lt_dec j ix) as [L|L].
+        + specialize (S2' j). lia.
+        + pose proof (gs_mono_le ix j). lia.
+      - intros j Hj H1 H2. assert (j = ix) as ->.
+        { destruct (Z_lt_dec j ix) as [L|L].
+          - pose proof (gs_ge j). specialize (S2' j). lia.
+          - destruct (Z.eq_dec j ix); [auto|]. pose proof (ge_mono_le ix (j - 1)). pose proof (gs_ge ix). lia. }
+        rewrite (Cp_pos m) by lia. reflexivity. }
+    destruct (x =? ge m ix) eqn:E3.
+    { exists (x - C m ix). split; [reflexivity|]. split.
+      - intros j Hj Hc. exfalso. destruct (Z_lt_dec ix j) as [L|L].
+        + pose proof (ge_le_gs ix j). lia.
+        + pose proof (ge_mono_le j ix). lia.
+      - intros j Hj H1 H2. assert (j = ix + 1) as ->.
+        { destruct (Z_lt_dec ix j) as [L|L].
+          - destruct (Z.eq_dec j (ix + 1)); [auto|]. pose proof (ge_mono m Hwfi ix (j - 1)). lia.
+          - pose proof (gs_ge j). pose proof (ge_mono_le j ix). lia. }
+        rewrite (Cp_succ m) by lia. reflexivity. }
+    destruct ((gs m ix <=? x) && (x <? ge m ix)) eqn:E4; [|lia].
+    exists (P m ix). split; [reflexivity|]. split.
+    - intros j Hj Hc. f_equal. apply (gap_unique x); lia.
+    - intros j Hj H1 H2. assert (j = ix) as ->.
+      { destruct (Z_lt_dec j ix) as [L|L].
+        - pose proof (gs_ge j). specialize (S2' j). lia.
+        - destruct (Z.eq_dec j ix); [auto|]. pose proof (ge_mono_le ix (j - 1)). lia. }
+      unfold gs in *. lia.
+  Qed.
+
+  (** the relation determines the value wherever it applies; existence of an
+      applicable clause for every [0 <= x <= len m] *)
+  Lemma seq_rel_cases x : 0 <= x ->
+    (exists j, 0 <= j < n /\ gs m j <= x < ge m j) \/
+    (exists j, 0 <= j <= n /\ (0 < j -> ge m (j - 1) <= x) /\ (j < n -> x < gs m j)).
+  Proof.
+    intros Hx. pose proof (ss_right_spec (gap_ends m) x) as (S1 & S2 & S3).
+    rewrite (zlen_gap_ends m Hwfi) in *. set (j := ss_right (gap_ends m) x) in *.
+    destruct (Z_lt_dec j n) as [L|L].
+    - specialize (S3 L). rewrite (znth_gap_ends m Hwfi) in S3 by lia.
+      destruct (Z_le_dec (gs m j) x) as [G|G].
+      + left. exists j. lia.
+      + right. exists j. split; [lia|]. split; [|lia]. intros Hj. specialize (S2 (j - 1)).
+        rewrite (znth_gap_ends m Hwfi) in S2 by lia. lia.
+    - right. exists j. split; [lia|]. split; [|lia]. intros Hj. specialize (S2 (j - 1)).
+      rewrite (znth_gap_ends m Hwfi) in S2 by lia. lia.
+  Qed.
+End SeqIndex.
+
+Lemma residues_nonneg k : 0 <= residues k.
+Proof. induction k as [|[|] k IH]; cbn [residues]; lia. Qed.
+
+Lemma residues_firstn_succ k : forall x, 0 <= x < zlen k ->
+  residues (firstn (Z.to_nat (x + 1)) k) =
+  residues (firstn (Z.to_nat x) k) + (if znth true k x then 1 else 0).
+Proof.
+  induction k as [|b k IH]; intros x Hx.
+  - znil. lia.
+  - rewrite zlen_cons in Hx. replace (Z.to_nat (x + 1)) with (S (Z.to_nat x)) by lia.
+    destruct (Z.eq_dec x 0) as [->|Hne].
+    + cbn [Z.to_nat firstn]. rewrite znth_0. destruct b; cbn [residues]; lia.
+    + rewrite znth_pos by lia. replace (Z.to_nat x) with (S (Z.to_nat (x - 1))) by lia.
+      rewrite !firstn_cons. specialize (IH (x - 1) ltac:(lia)).
+      replace (Z.to_nat (x - 1 + 1)) with (S (Z.to_nat (x - 1))) in IH by lia.
+      set (r1 := residues (firstn (S (Z.to_nat (x - 1))) k)) in *.
+      set (r0 := residues (firstn (Z.to_nat (x - 1)) k)) in *.
+      destruct b; cbn [residues]; fold r1; fold r0; lia.
+Qed.
+
+Section SeqIndexSpec.
+  Variable m : imap.
+  Hypothesis Hwf : WF m.
+  Let Hwfi : WFi m := proj1 (WF_WFi m) Hwf.
+  Local Notation n := (num_gaps m).
+
+  Lemma seq_rel_residues x : 0 <= x -> x <= len m ->
+    forall s, seq_rel m x s -> s = residues (firstn (Z.to_nat x) (abs m)).
+  Proof.
+    intros Hx. revert x Hx.
+    apply (natlike_ind (fun x => x <= len m -> forall s, seq_rel m x s -> s = residues (firstn (Z.to_nat x) (abs m)))).
+    - intros _ s (R1 & R2). cbn [Z.to_nat firstn residues].
+      destruct (seq_rel_cases m Hwfi 0 ltac:(lia)) as [(j & Hj & Hc)|(j & Hj & H1 & H2)].
+      + rewrite (R1 j Hj Hc). pose proof (gs_ge m Hwfi j Hj). pose proof (P_bounds m Hwfi j Hj).
+        pose proof (Cp_lt_C m Hwfi j Hj). unfold gs in *. lia.
+      + destruct (Z.eq_dec j 0) as [->|Hne].
+        * rewrite (R2 0); [rewrite Cp_0; lia|lia|lia|]. intros L. specialize (H2 L). lia.
+        * pose proof (gs_ge m Hwfi (j - 1)). lia.
+    - intros x Hx IH Hlen s' (R1' & R2').
+      destruct (seq_index_nn_rel m Hwfi x Hx) as (s & _ & Hrel).
+      specialize (IH ltac:(lia) s Hrel). destruct Hrel as (R1 & R2).
+      replace (Z.succ x) with (x + 1) in * by lia.
+      rewrite residues_firstn_succ by (rewrite (zlen_abs m Hwf); lia). rewrite <- IH.
+      destruct (seq_rel_cases m Hwfi x Hx) as [(j & Hj & Hc)|(j & Hj & H1 & H2)].
+      + rewrite (abs_in_gap m Hwf x j Hj Hc). rewrite (R1 j Hj Hc).
+        destruct (Z_lt_dec (x + 1) (ge m j)) as [L|L].
+        * rewrite (R1' j Hj); lia.
+        * rewrite (R2' (j + 1)); [|lia|intros; replace (j + 1 - 1) with j by lia; lia|].
+          -- rewrite (Cp_succ m) by lia. unfold ge in *. lia.
+          -- intros L2. pose proof (ge_le_gs m Hwfi j (j + 1)). lia.
+      + rewrite (abs_not_in_gap m Hwf x); [|lia|].
+        * rewrite (R2 j); [|lia|auto|intros L; specialize (H2 L); lia].
+          rewrite (R2' j); [lia|lia|intros L; specialize (H1 L); lia|intros L; specialize (H2 L); lia].
+        * intros k Hk Hc. destruct (Z_lt_dec k j) as [L|L].
+          -- pose proof (ge_mono_le m Hwfi k (j - 1)). lia.
+          -- pose proof (gs_mono_le m Hwfi j k). lia.
+  Qed.
+
+  Lemma seq_index_nn_spec x : 0 <= x <= len m ->
+    seq_index_nn m x = Ok (residues (firstn (Z.to_nat x) (abs m))).
+  Proof.
+    intros Hx. destruct (seq_index_nn_rel m Hwfi x ltac:(lia)) as (s & E & Hrel).
+    rewrite E. f_equal. apply seq_rel_residues; auto; lia.
+  Qed.
+
+  (** [get_seq_index] l.1271 = number of residues in front of the alignment position *)
+  Lemma get_seq_index_spec x : 0 <= x <= len m ->
+    get_seq_index m x = Ok (residues (firstn (Z.to_nat x) (abs m))).
+  Proof.
+    intros Hx. unfold get_seq_index. destruct (x <? 0) eqn:E; [lia|]. rewrite E.
+    apply seq_index_nn_spec. exact Hx.
+  Qed.
+
+  (** negative indices count from the end, as for a Python sequence *)
+  Lemma get_seq_index_neg x : - len m <= x < 0 ->
+    get_seq_index m x = Ok (residues (firstn (Z.to_nat (len m + x)) (abs m))).
+  Proof.
+    intros Hx. unfold get_seq_index. destruct (x <? 0) eqn:E; [|lia].
+    destruct (len m + x <? 0) eqn:E2; [lia|]. apply seq_index_nn_spec. lia.
+  Qed.
+End SeqIndexSpec.
+
+(** * Part 6: slicing *)
+
+Lemma sub_at_0 L : forall i, sub_at L i 0 = L.
+Proof.
+  induction L as [|x L IH]; intros i; cbn [sub_at]; auto.
+  destruct (i =? 0); [f_equal; lia|]. now rewrite IH.
+Qed.
+
+Lemma abs_by_pointwise m m' a b :
+  WF m -> WF m' -> 0 <= a -> a <= b -> b <= len m -> len m' = b - a ->
+  (forall i, 0 <= i < b - a -> znth true (abs m') i = znth true (abs m) (a + i)) ->
+  abs m' = msub (abs m) a b.
+Proof.
+  intros Hwf Hwf' Ha Hab Hb Hlen Hpt. rewrite <- zslice_msub.
+  apply (list_ext_znth true).
+  - rewrite zlen_abs by auto. rewrite zlen_zslice; [lia|lia|lia|rewrite zlen_abs; auto].
+  - intros i Hi. rewrite zlen_abs in Hi by auto. rewrite znth_zslice by lia. apply Hpt. lia.
+Qed.
+
+(** the easy results: a gap-free map, a single all-gap map *)
+Lemma abs_nogap L : 0 <= L -> abs (mk_imap [] [] L) = repeat true (Z.to_nat L).
+Proof. intros. unfold abs. cbn [gap_pos cum_gap_lengths parent_length expand]. f_equal. lia. Qed.
+
+Lemma WF_nogap L : 0 <= L -> WF (mk_imap [] [] L).
+Proof. intros. split; cbn; lia. Qed.
+
+Lemma abs_onegap L : 0 < L -> abs (mk_imap [0] [L] 0) = repeat false (Z.to_nat L).
+Proof.
+  intros. unfold abs. cbn [gap_pos cum_gap_lengths parent_length expand].
+  change (Z.to_nat (0 - 0)) with O. cbn [repeat app]. rewrite app_nil_r. f_equal. lia.
+Qed.
+
+Lemma WF_onegap L : 0 < L -> WF (mk_imap [0] [L] 0).
+Proof. intros. split; cbn; lia. Qed.
+
+Lemma eq_repeat_pointwise (v : bool) k L :
+  zlen k = L -> (forall i, 0 <= i < L -> znth true k i = v) -> repeat v (Z.to_nat L) = k.
+Proof.
+  intros Hl Hpt. pose proof (zlen_nonneg k). apply (list_ext_znth true).
+  - rewrite zlen_repeat. lia.
+  - intros i Hi. rewrite zlen_repeat in Hi. rewrite znth_repeat by lia. symmetry. apply Hpt. lia.
+Qed.
+
+Lemma zsum_zslice_sub_at' L i d x y : (0 <= i < zlen L \/ d = 0) -> 0 <= x -> x <= y ->
+  zsum (zslice (sub_at L i d) x y) = zsum (zslice L x y) - (if (x <=? i) && (i <? y) then d else 0).
+Proof.
+  intros [Hi| ->] Hx Hxy.
+  - apply zsum_zslice_sub_at; auto.
+  - rewrite sub_at_0. destruct ((x <=? i) && (i <? y)); lia.
+Qed.
+
+Section SliceCore.
+  Variable m : imap.
+  Hypothesis Hwf : WF m.
+  Let Hwfi : WFi m := proj1 (WF_WFi m) Hwf.
+  Local Notation n := (num_gaps m).
+  Variables a b : Z.
+  Hypothesis Hab : 0 <= a < b.
+  Hypothesis Hblen : b <= len m.
+  Variables bg en d1 d2 : Z.
+  Hypothesis HB1 : 0 <= bg < n.
+  Hypothesis HB2 : forall j, 0 <= j < bg -> ge m j <= a.
+  Hypothesis HB3 : a < ge m bg.
+  Hypothesis HD1 : (a <= gs m bg /\ d1 = 0) \/ (gs m bg < a /\ d1 = a - gs m bg).
+  Hypothesis HE1 : bg <= en <= n.
+  Hypothesis HE2 : forall j, 0 <= j < en -> gs m j < b.
+  Hypothesis HE3 : en < n -> b <= gs m en.
+  Hypothesis HD2 : (d2 = 0 /\ (bg < en -> ge m (en - 1) <= b)) \/
+                   (bg < en /\ b < ge m (en - 1) /\ d2 = ge m (en - 1) - b).
+
+  Let L := get_gap_lengths m.
+  Let shift := a - Cp m bg - d1.
+  Let L2 := sub_at (sub_at L bg d1) (en - 1) d2.
+  Let gp' := map (fun p => p - shift) (zslice (gap_pos m) bg en).
+  Let lengths' := zslice L2 bg en.
+  Let n' := en - bg.
+
+  Lemma sc_zlen_L : zlen L = n.
+  Proof. unfold L, get_gap_lengths. rewrite zlen_diffs. apply (wfi_len m Hwfi). Qed.
+
+  Lemma sc_zlen_L2 : zlen L2 = n.
+  Proof. unfold L2. rewrite !zlen_sub_at. apply sc_zlen_L. Qed.
+
+  Lemma sc_zlen_gp' : zlen gp' = n'.
+  Proof. unfold gp', n'. rewrite zlen_map. apply zlen_zslice; unfold num_gaps in *; lia. Qed.
+
+  Lemma sc_zlen_lengths' : zlen lengths' = n'.
+  Proof. unfold lengths', n'. apply zlen_zslice; rewrite ?sc_zlen_L2; lia. Qed.
+
+  Lemma sc_d1_nonneg : 0 <= d1.
+  Proof. destruct HD1 as [(A & ->)|(A & ->)]; lia. Qed.
+
+  Lemma sc_d2_nonneg : 0 <= d2.
+  Proof. destruct HD2 as [(-> & A)|(A & B & ->)]; lia. Qed.
+
+  (** partial sums of the trimmed gap lengths *)
+  Lemma sc_zsum y : bg < y <= en ->
+    zsum (zslice L2 bg y) = Cp m y - Cp m bg - d1 - (if y =? en then d2 else 0).
+  Proof.
+    intros Hy. unfold L2.
+    rewrite zsum_zslice_sub_at'; [|left; rewrite zlen_sub_at, sc_zlen_L; lia|lia|lia].
+    rewrite zsum_zslice_sub_at'; [|left; rewrite sc_zlen_L; lia|lia|lia].
+    unfold L, get_gap_lengths. rewrite zsum_zslice_diffs; [|lia|lia|rewrite (wfi_len m Hwfi); lia].
+    fold (Cp m y). fold (Cp m bg).
+    destruct ((bg <=? bg) && (bg <? y)) eqn:E1; [|lia].
+    destruct ((bg <=? en - 1) && (en - 1 <? y)) eqn:E2; destruct (y =? en) eqn:E3; lia.
+  Qed.
+
+  Lemma sc_P j : 0 <= j < n' -> znth 0 gp' j = P m (bg + j) - shift.
+  Proof.
+    intros Hj. unfold gp'. rewrite (znth_map _ 0) by (rewrite zlen_zslice; unfold num_gaps, n' in *; lia).
+    rewrite znth_zslice by (unfold n' in *; lia). reflexivity.
+  Qed.
+
+  Lemma sc_C j : 0 <= j < n' ->
+    znth 0 (cumsum lengths') j = Cp m (bg + j + 1) - Cp m bg - d1 - (if bg + j + 1 =? en then d2 else 0).
+  Proof.
+    intros Hj. unfold cumsum. rewrite znth_cumsum_from by (rewrite sc_zlen_lengths'; lia).
+    unfold lengths'. rewrite firstn_zslice by (unfold n' in *; lia).
+    rewrite sc_zsum by (unfold n' in *; lia). replace (bg + (j + 1)) with (bg + j + 1) by lia. lia.
+  Qed.
+
+  (** sequence positions of the two slice ends *)
+  Lemma sc_sa sa : seq_rel m a sa -> sa = shift.
+  Proof.
+    intros (R1 & R2). unfold shift. destruct HD1 as [(A & ->)|(A & ->)].
+    - rewrite (R2 bg); [lia|lia| |lia]. intros Hpos. apply HB2. lia.
+    - rewrite (R1 bg); [|lia|lia]. unfold gs. lia.
+  Qed.
+
+  Lemma sc_sb sb : seq_rel m b sb -> sb = b - Cp m en + d2.
+  Proof.
+    intros (R1 & R2). destruct HD2 as [(-> & A)|(A & B & ->)].
+    - rewrite (R2 en); [lia|lia| |exact HE3]. intros Hpos.
+      destruct (Z_lt_dec bg en) as [Lt|Lt]; [auto|]. assert (en = bg) as -> by lia.
+      specialize (HB2 (bg - 1)). lia.
+    - rewrite (R1 (en - 1)); [|lia|]. 2:{ specialize (HE2 (en - 1)). lia. }
+      rewrite (Cp_pos m en) by lia. unfold ge. lia.
+  Qed.
+
+  Lemma sc_P_last_le sb : seq_rel m b sb -> 0 < n' -> P m (en - 1) <= sb.
+  Proof.
+    intros Hrel Hn'. rewrite (sc_sb sb Hrel). unfold n' in Hn'. rewrite (Cp_pos m en) by lia.
+    destruct HD2 as [(-> & A)|(A & B & ->)].
+    - specialize (A ltac:(lia)). unfold ge in A. lia.
+    - unfold ge. lia.
+  Qed.
+
+  Variables sa sb : Z.
+  Hypothesis Hsa : seq_rel m a sa.
+  Hypothesis Hsb : seq_rel m b sb.
+  Let m' := mk_imap gp' (cumsum lengths') (sb - sa).
+
+  Lemma sc_shift_le : shift <= P m bg.
+  Proof. unfold shift. destruct HD1 as [(A & ->)|(A & ->)]; unfold gs in *; lia. Qed.
+
+  Lemma sc_num_gaps : num_gaps m' = n'.
+  Proof. unfold num_gaps, m'. cbn [gap_pos]. apply sc_zlen_gp'. Qed.
+
+  Lemma sc_gs_bg_lt_b : 0 < n' -> gs m bg < b.
+  Proof. intros. apply HE2. unfold n' in *. lia. Qed.
+
+  Lemma sc_WFi : WFi m'.
+  Proof.
+    unfold WFi. rewrite sc_num_gaps. unfold P, C, m'. cbn [gap_pos cum_gap_lengths parent_length].
+    pose proof sc_d1_nonneg as Hd1. pose proof sc_d2_nonneg as Hd2. pose proof sc_shift_le as Hsh.
+    rewrite (sc_sa sa Hsa).
+    split; [|split; [|split]].
+    - rewrite sc_zlen_gp'. unfold cumsum. rewrite zlen_cumsum_from. now rewrite sc_zlen_lengths'.
+    - destruct (Z.eq_dec n' 0) as [E|E].
+      + rewrite (sc_sb sb Hsb). unfold n' in E. assert (en = bg) as Een by lia.
+        destruct HD2 as [(-> & A)|(A & B & D)]; [|lia]. unfold shift. rewrite Een. lia.
+      + pose proof (sc_P_last_le sb Hsb ltac:(unfold n' in *; lia)).
+        assert (P m bg <= P m (en - 1)).
+        { destruct (Z.eq_dec bg (en - 1)) as [<-|Hne]; [lia|]. pose proof (P_mono m Hwfi bg (en - 1)). unfold n' in *. lia. }
+        lia.
+    - intros Hn'. rewrite sc_P by lia. rewrite sc_C by lia. rewrite sc_P by lia.
+      replace (bg + 0) with bg by lia. replace (bg + (n' - 1)) with (en - 1) by (unfold n'; lia).
+      split; [lia|]. split.
+      + rewrite (Cp_succ m) by lia. pose proof (sc_gs_bg_lt_b Hn').
+        assert (Cp m bg = gs m bg - P m bg) as -> by (unfold gs; lia).
+        assert (C m bg = ge m bg - P m bg) as -> by (unfold ge; lia).
+        destruct (bg + 1 =? en) eqn:E.
+        * assert (en - 1 = bg) as Een by lia. pose proof (gs_ge m Hwfi bg ltac:(lia)).
+          destruct HD2 as [(-> & A)|(A & B & ->)]; rewrite ?Een in *; destruct HD1 as [(A1 & ->)|(A1 & ->)]; lia.
+        * destruct HD1 as [(A1 & ->)|(A1 & ->)]; pose proof (gs_ge m Hwfi bg); lia.
+      + pose proof (sc_P_last_le sb Hsb Hn'). lia.
+    - intros j Hj Hj1. rewrite !sc_P by lia. rewrite !sc_C by lia.
+      replace (bg + (j + 1)) with (bg + j + 1) by lia.
+      pose proof (P_mono m Hwfi (bg + j) (bg + j + 1)). split; [unfold n' in *; lia|].
+      destruct (bg + j + 1 =? en) eqn:E1; [unfold n' in *; lia|].
+      rewrite !(Cp_succ m) by lia.
+      pose proof (C_mono m Hwfi (bg + j) (bg + j + 1)).
+      destruct (bg + j + 1 + 1 =? en) eqn:E2; [|unfold n' in *; lia].
+      assert (en - 1 = bg + j + 1) as Een by lia.
+      destruct HD2 as [(-> & A)|(A & B & ->)]; [unfold n' in *; lia|]. rewrite Een.
+      specialize (HE2 (bg + j + 1)). unfold gs, ge in *. rewrite (Cp_pos m (bg + j + 1)) in HE2 by lia.
+      replace (bg + j + 1 - 1) with (bg + j) in HE2 by lia. unfold n' in *. lia.
+  Qed.
+
+  Lemma sc_WF : WF m'.
+  Proof. apply WF_WFi. apply sc_WFi. Qed.
+
+  Lemma sc_len : len m' = b - a.
+  Proof.
+    rewrite (len_eq m' sc_WFi). rewrite sc_num_gaps. unfold m' at 1. cbn [parent_length].
+    rewrite (sc_sa sa Hsa), (sc_sb sb Hsb). unfold shift.
+    destruct (Z.eq_dec n' 0) as [E|E].
+    - rewrite E, Cp_0. unfold n' in E. assert (en = bg) as Een by lia.
+      destruct HD2 as [(-> & A)|(A & B & D)]; [|lia]. rewrite Een in *.
+      destruct HD1 as [(A1 & ->)|(A1 & ->)]; [lia|]. specialize (HE3 ltac:(lia)). lia.
+    - pose proof (zlen_nonneg gp') as Hn. rewrite sc_zlen_gp' in Hn.
+      rewrite (Cp_pos m') by lia. unfold C, m'. cbn [cum_gap_lengths]. rewrite sc_C by lia.
+      replace (bg + (n' - 1) + 1) with en by (unfold n'; lia). rewrite Z.eqb_refl. lia.
+  Qed.
+
+  Lemma sc_gs j : 0 <= j < n' ->
+    gs m' j = if j =? 0 then gs m bg - a + d1 else gs m (bg + j) - a.
+  Proof.
+    intros Hj. unfold gs at 1. unfold P, m'. cbn [gap_pos]. rewrite sc_P by lia. fold m'.
+    destruct (j =? 0) eqn:E.
+    - assert (j = 0) as -> by lia. rewrite Cp_0. replace (bg + 0) with bg by lia. unfold shift, gs. lia.
+    - rewrite (Cp_pos m') by lia. unfold C, m'. cbn [cum_gap_lengths]. rewrite sc_C by lia.
+      replace (bg + (j - 1) + 1) with (bg + j) by lia.
+      destruct (bg + j =? en) eqn:E2; [unfold n' in *; lia|]. unfold shift, gs. lia.
+  Qed.
+
+  Lemma sc_ge j : 0 <= j < n' ->
+    ge m' j = ge m (bg + j) - a - (if bg + j + 1 =? en then d2 else 0).
+  Proof.
+    intros Hj. unfold ge at 1. unfold P, C, m'. cbn [gap_pos cum_gap_lengths]. rewrite sc_P by lia.
+    rewrite sc_C by lia. rewrite (Cp_succ m) by lia. unfold shift, ge. lia.
+  Qed.
+
+  Lemma sc_pointwise i : 0 <= i < b - a -> znth true (abs m') i = znth true (abs m) (a + i).
+  Proof.
+    intros Hi. pose proof sc_d1_nonneg as Hd1. pose proof sc_d2_nonneg as Hd2.
+    destruct (seq_rel_cases m Hwfi (a + i) ltac:(lia)) as [(k & Hk & Hc)|(k & Hk & K1 & K2)].
+    - rewrite (abs_in_gap m Hwf (a + i) k Hk Hc).
+      assert (Hk1 : bg <= k).
+      { destruct (Z_lt_dec k bg) as [Lt|]; [|lia]. specialize (HB2 k). lia. }
+      assert (Hk2 : k < en).
+      { destruct (Z_lt_dec k en) as [|Ge]; [lia|]. specialize (HE3 ltac:(lia)).
+        pose proof (gs_mono_le m Hwfi en k). lia. }
+      apply (abs_in_gap m' sc_WF i (k - bg)); rewrite ?sc_num_gaps; [unfold n'; lia|].
+      rewrite sc_gs, sc_ge by (unfold n'; lia). replace (bg + (k - bg)) with k by lia.
+      split.
+      + destruct (k - bg =? 0) eqn:E; [|lia]. assert (k = bg) as Ek by lia. rewrite Ek in *.
+        destruct HD1 as [(A1 & ->)|(A1 & ->)]; lia.
+      + destruct (k + 1 =? en) eqn:E; [|lia]. assert (en - 1 = k) as Een by lia.
+        destruct HD2 as [(-> & A)|(A & B & ->)]; rewrite ?Een in *; lia.
+    - rewrite (abs_not_in_gap m Hwf (a + i)); [|lia|].
+      2:{ intros K HK Hc. destruct (Z_lt_dec K k) as [Lt|Ge].
+          - pose proof (ge_mono_le m Hwfi K (k - 1)). lia.
+          - pose proof (gs_mono_le m Hwfi k K). lia. }
+      apply (abs_not_in_gap m' sc_WF i); [rewrite sc_len; lia|].
+      rewrite sc_num_gaps. intros j Hj Hc. rewrite sc_gs, sc_ge in Hc by lia.
+      assert (Hcov : gs m (bg + j) <= a + i < ge m (bg + j)).
+      { split.
+        - destruct (j =? 0) eqn:E; [|lia]. assert (j = 0) as -> by lia. replace (bg + 0) with bg in * by lia. lia.
+        - destruct (bg + j + 1 =? en); lia. }
+      unfold n' in Hj. destruct (Z_lt_dec (bg + j) k) as [Lt|Ge].
+      + pose proof (ge_mono_le m Hwfi (bg + j) (k - 1)). lia.
+      + pose proof (gs_mono_le m Hwfi k (bg + j)). lia.
+  Qed.
+
+  (** the general branch of [__getitem__]: what it constructs is a well-formed
+      map of the sliced string *)
+  Lemma slice_core :
+    post_init_lengths gp' lengths' (sb - sa) = Ok m' /\ WF m' /\ abs m' = msub (abs m) a b.
+  Proof.
+    split; [|split].
+    - unfold post_init_lengths, post_init. fold m'.
+      rewrite sc_zlen_gp'. unfold cumsum. rewrite zlen_cumsum_from, sc_zlen_lengths'. rewrite Z.eqb_refl.
+      cbn [negb]. destruct (n' =? 0) eqn:E; [reflexivity|]. cbn [negb andb].
+      pose proof (zlen_nonneg gp') as Hn. rewrite sc_zlen_gp' in Hn.
+      rewrite zlast_znth by (rewrite sc_zlen_gp'; lia). rewrite sc_zlen_gp'. rewrite sc_P by lia.
+      replace (bg + (n' - 1)) with (en - 1) by (unfold n'; lia).
+      pose proof (sc_P_last_le sb Hsb ltac:(lia)). rewrite (sc_sa sa Hsa).
+      destruct (P m (en - 1) - shift >? sb - shift) eqn:E2; [lia|]. reflexivity.
+    - apply sc_WF.
+    - apply abs_by_pointwise; auto; try lia; [apply sc_WF|apply sc_len|apply sc_pointwise].
+  Qed.
+End SliceCore.
+
+(** ** the branches of [getitem_slice], named (each equation is by [reflexivity]:
+    these are the model's own sub-expressions) *)
+
+Definition slice_start (m : imap) (start l : Z) : Z * Z * list Z :=
+  let gp := gap_pos m in
+  let cum := cum_gap_lengths m in
+  let gs := gap_starts m in
+  let ge := gap_ends m in
+  let lengths := get_gap_lengths m in
+  let first_gap := znth 0 gp 0 in
+  if start <? first_gap then (0, start, lengths)
+  else if (pyget gs l <=? start) && (start <? pyget ge l) then
+    let begin_diff := start - pyget gs l in
+    (l,
+     (if l =? 0 then znth 0 gp 0 else start - pyget cum (l - 1) - begin_diff),
+     sub_at lengths l begin_diff)
+  else if start =? pyget ge l then (l + 1, start - pyget cum l, lengths)
+  else (l, (if l =? 0 then start else start - pyget cum (l - 1)), lengths).
+
+Definition slice_stop (m : imap) (start stop l begin shift : Z) (lengths : list Z) : res imap :=
+  let gp := gap_pos m in
+  let gs := gap_starts m in
+  let ge := gap_ends m in
+  let r := ss_right (zslice ge l (zlen ge)) stop + l in
+  let '(end_, lengths) :=
+    if r =? num_gaps m then (r, lengths)
+    else if (pyget gs r <? stop) && (stop <=? pyget ge r) then
+      (r + 1, sub_at lengths r (pyget ge r - stop))
+    else (r, lengths) in
+  let pos_result := map (fun p => p - shift) (zslice gp begin end_) in
+  let lengths := zslice lengths begin end_ in
+  bind (seq_index_nn m stop) (fun si_stop =>
+  bind (seq_index_nn m start) (fun si_start =>
+  post_init_lengths pos_result lengths (si_stop - si_start))).
+
+Lemma getitem_slice_unfold m a b : 0 <= a -> a < b ->
+  getitem_slice m (Some a) (Some b) =
+  let no_gaps := post_init [] [] (b - a) in
+  if num_gaps m =? 0 then no_gaps
+  else if (b <? znth 0 (gap_pos m) 0) || (a >=? zlast (gap_pos m) + zlast (cum_gap_lengths m)) then no_gaps
+  else
+    let l := ss_left (gap_ends m) a in
+    if (pyget (gap_starts m) l <=? a) && (a <? pyget (gap_ends m) l) && (b <=? pyget (gap_ends m) l)
+    then post_init [0] [b - a] 0
+    else let '(begin, shift, lengths) := slice_start m a l in slice_stop m a b l begin shift lengths.
+Proof.
+  intros Ha Hab. unfold getitem_slice.
+  destruct (a >=? 0) eqn:E1; [|lia]. destruct (b >=? 0) eqn:E2; [|lia].
+  destruct (Z.min a b <? 0) eqn:E3; [lia|]. destruct (a >=? b) eqn:E4; [lia|].
+  reflexivity.
+Qed.
+
+Section SliceBranches.
+  Variable m : imap.
+  Hypothesis Hwf : WF m.
+  Let Hwfi : WFi m := proj1 (WF_WFi m) Hwf.
+  Local Notation n := (num_gaps m).
+  Variables a b : Z.
+  Hypothesis Hab : 0 <= a < b.
+  Hypothesis Hblen : b <= len m.
+  Hypothesis Hn : 0 < n.
+  Hypothesis Hlast : a < ge m (n - 1).
+  Let l := ss_left (gap_ends m) a.
+
+  Lemma sb_l_spec : 0 <= l < n /\ (forall j, 0 <= j < l -> ge m j < a) /\ a <= ge m l.
+  Proof.
+    pose proof (ss_left_spec (gap_ends m) a) as (S1 & S2 & S3).
+    rewrite (zlen_gap_ends m Hwfi) in *. fold l in S1, S2, S3.
+    assert (Hl : l < n).
+    { destruct (Z.eq_dec l n) as [E|]; [|lia]. specialize (S2 (n - 1)).
+      rewrite (znth_gap_ends m Hwfi) in S2 by lia. lia. }
+    split; [lia|]. split.
+    - intros j Hj. specialize (S2 j Hj). rewrite (znth_gap_ends m Hwfi) in S2 by lia. exact S2.
+    - specialize (S3 Hl). rewrite (znth_gap_ends m Hwfi) in S3 by lia. exact S3.
+  Qed.
+
+  Lemma sb_start :
+    exists bg d1,
+      slice_start m a l = (bg, a - Cp m bg - d1, sub_at (get_gap_lengths m) bg d1) /\
+      0 <= bg < n /\ (forall j, 0 <= j < bg -> ge m j <= a) /\ a < ge m bg /\
+      ((a <= gs m bg /\ d1 = 0) \/ (gs m bg < a /\ d1 = a - gs m bg)).
+  Proof.
+    destruct sb_l_spec as (Hl & Hlt & Hle).
+    unfold slice_start. change (znth 0 (gap_pos m) 0) with (P m 0).
+    rewrite !(pyget_nonneg _ l) by lia.
+    rewrite (znth_gap_starts m Hwfi) by lia. rewrite (znth_gap_ends m Hwfi) by lia.
+    fold (C m l).
+    destruct (a <? P m 0) eqn:E0.
+    { exists 0, 0. rewrite Cp_0, sub_at_0. split; [f_equal; f_equal; lia|].
+      pose proof (gs_ge m Hwfi 0 ltac:(lia)). pose proof (gs_0 m). split; [lia|]. split; [intros; lia|].
+      split; [lia|]. left. lia. }
+    destruct ((gs m l <=? a) && (a <? ge m l)) eqn:E1.
+    { exists l, (a - gs m l). split.
+      - f_equal. f_equal. destruct (l =? 0) eqn:El.
+        + assert (l = 0) as -> by lia. rewrite Cp_0. unfold gs. rewrite Cp_0. lia.
+        + rewrite pyget_nonneg by lia. fold (C m (l - 1)). rewrite (Cp_pos m l) by lia. reflexivity.
+      - split; [lia|]. split; [intros j Hj; specialize (Hlt j Hj); lia|]. split; [lia|].
+        destruct (Z.eq_dec a (gs m l)); [left|right]; lia. }
+    destruct (a =? ge m l) eqn:E2.
+    { assert (Hl1 : l + 1 < n).
+      { destruct (Z.eq_dec l (n - 1)) as [E|]; [rewrite E in *; lia|lia]. }
+      exists (l + 1), 0. rewrite sub_at_0. rewrite (Cp_succ m) by lia. split; [f_equal; f_equal; lia|].
+      split; [lia|]. split.
+      - intros j Hj. pose proof (ge_mono_le m Hwfi j l). lia.
+      - pose proof (ge_le_gs m Hwfi l (l + 1)). pose proof (gs_ge m Hwfi (l + 1)). split; [lia|]. left. lia. }
+    exists l, 0. rewrite sub_at_0. split.
+    - f_equal. f_equal. destruct (l =? 0) eqn:El.
+      + assert (l = 0) as -> by lia. rewrite Cp_0. lia.
+      + rewrite pyget_nonneg by lia. fold (C m (l - 1)). rewrite (Cp_pos m l) by lia. lia.
+    - split; [lia|]. split; [intros j Hj; specialize (Hlt j Hj); lia|]. split; [lia|]. left. lia.
+  Qed.
+
+  Lemma sb_stop bg d1 :
+    0 <= bg < n -> (forall j, 0 <= j < bg -> ge m j <= a) -> a < ge m bg ->
+    ((a <= gs m bg /\ d1 = 0) \/ (gs m bg < a /\ d1 = a - gs m bg)) ->
+    exists m', slice_stop m a b l bg (a - Cp m bg - d1) (sub_at (get_gap_lengths m) bg d1) = Ok m'
+               /\ WF m' /\ abs m' = msub (abs m) a b.
+  Proof.
+    intros HB1 HB2 HB3 HD1. destruct sb_l_spec as (Hl & Hlt & Hle).
+    unfold slice_stop. rewrite (zlen_gap_ends m Hwfi).
+    pose proof (ss_right_spec (zslice (gap_ends m) l n) b) as (S1 & S2 & S3).
+    rewrite zlen_zslice in * by (rewrite ?(zlen_gap_ends m Hwfi); lia).
+    set (r0 := ss_right (zslice (gap_ends m) l n) b) in *.
+    set (r := r0 + l).
+    assert (R2 : forall j, 0 <= j < r -> ge m j <= b).
+    { intros j Hj. destruct (Z_lt_dec j l) as [Lt|Ge].
+      - specialize (Hlt j). lia.
+      - specialize (S2 (j - l) ltac:(unfold r in *; lia)). rewrite znth_zslice in S2 by (unfold r in *; lia).
+        rewrite (znth_gap_ends m Hwfi) in S2 by (unfold r in *; lia). replace (l + (j - l)) with j in S2 by lia. exact S2. }
+    assert (R3 : r < n -> b < ge m r).
+    { intros Hr. specialize (S3 ltac:(unfold r in *; lia)). rewrite znth_zslice in S3 by (unfold r in *; lia).
+      rewrite (znth_gap_ends m Hwfi) in S3 by (unfold r in *; lia). replace (l + r0) with r in S3 by (unfold r; lia). exact S3. }
+    assert (Rbg : bg <= r).
+    { destruct (Z_lt_dec r bg) as [Lt|]; [|lia]. specialize (HB2 r ltac:(unfold r in *; lia)).
+      specialize (R3 ltac:(lia)). lia. }
+    assert (Rn : r <= n) by (unfold r; lia).
+    destruct (seq_index_nn_rel m Hwfi b ltac:(lia)) as (sb & Esb & Hsb).
+    destruct (seq_index_nn_rel m Hwfi a ltac:(lia)) as (sa & Esa & Hsa).
+    (* the three stop cases all produce [sub_at L1 (en - 1) d2] *)
+    assert (Hcases : exists en d2,
+      (if r =? n then (r, sub_at (get_gap_lengths m) bg d1)
+       else if (pyget (gap_starts m) r <? b) && (b <=? pyget (gap_ends m) r)
+            then (r + 1, sub_at (sub_at (get_gap_lengths m) bg d1) r (pyget (gap_ends m) r - b))
+            else (r, sub_at (get_gap_lengths m) bg d1))
+      = (en, sub_at (sub_at (get_gap_lengths m) bg d1) (en - 1) d2) /\
+      bg <= en <= n /\ (forall j, 0 <= j < en -> gs m j < b) /\ (en < n -> b <= gs m en) /\
+      ((d2 = 0 /\ (bg < en -> ge m (en - 1) <= b)) \/ (bg < en /\ b < ge m (en - 1) /\ d2 = ge m (en - 1) - b))).
+    { destruct (r =? n) eqn:Er.
+      - exists r, 0. rewrite sub_at_0. split; [reflexivity|]. split; [lia|]. split.
+        + intros j Hj. specialize (R2 j Hj). pose proof (gs_ge m Hwfi j). lia.
+        + split; [lia|]. left. split; [reflexivity|]. intros _. apply R2. lia.
+      - assert (Hr : r < n) by lia. specialize (R3 Hr).
+        rewrite !(pyget_nonneg _ r) by lia.
+        rewrite (znth_gap_starts m Hwfi) by lia. rewrite (znth_gap_ends m Hwfi) by lia.
+        destruct ((gs m r <? b) && (b <=? ge m r)) eqn:Ec.
+        + exists (r + 1), (ge m r - b). replace (r + 1 - 1) with r by lia. split; [reflexivity|].
+          split; [lia|]. split.
+          * intros j Hj. destruct (Z.eq_dec j r) as [->|Hne]; [lia|].
+            specialize (R2 j ltac:(lia)). pose proof (gs_ge m Hwfi j). lia.
+          * split.
+            -- intros Hlt'. pose proof (ge_le_gs m Hwfi r (r + 1)). lia.
+            -- right. lia.
+        + exists r, 0. rewrite sub_at_0. split; [reflexivity|]. split; [lia|]. split.
+          * intros j Hj. specialize (R2 j Hj). pose proof (gs_ge m Hwfi j). lia.
+          * split; [lia|]. left. split; [reflexivity|]. intros Hlt'. apply R2. lia. }
+    destruct Hcases as (en & d2 & Eq & HE1 & HE2 & HE3 & HD2).
+    fold r. rewrite Eq. rewrite Esb, Esa. cbn [bind].
+    pose proof (slice_core m Hwf a b Hab Hblen bg en d1 d2 HB1 HB2 HB3 HD1 HE1 HE2 HE3 HD2 sa sb Hsa Hsb) as Hcore.
+    cbv zeta in Hcore. eexists. exact Hcore.
+  Qed.
+End SliceBranches.
+
+(** ** the slicing theorem *)
+
+Lemma post_init_nogap L : post_init [] [] L = Ok (mk_imap [] [] L).
+Proof. reflexivity. Qed.
+
+Lemma post_init_onegap L : post_init [0] [L] 0 = Ok (mk_imap [0] [L] 0).
+Proof. reflexivity. Qed.
+
+Lemma between_not_covered m (Hwfi : WFi m) x k :
+  0 <= k <= num_gaps m -> (0 < k -> ge m (k - 1) <= x) -> (k < num_gaps m -> x < gs m k) ->
+  forall j, 0 <= j < num_gaps m -> ~ (gs m j <= x < ge m j).
+Proof.
+  intros Hk K1 K2 j Hj Hc. destruct (Z_lt_dec j k) as [Lt|Ge].
+  - pose proof (ge_mono_le m Hwfi j (k - 1)). lia.
+  - pose proof (gs_mono_le m Hwfi k j). lia.
+Qed.
+
+Theorem slice_spec m a b :
+  WF m -> 0 <= a -> a <= b -> b <= len m ->
+  exists m', getitem_slice m (Some a) (Some b) = Ok m' /\ WF m' /\ abs m' = msub (abs m) a b.
+Proof.
+  intros Hwf Ha Hab Hb. pose proof (proj1 (WF_WFi m) Hwf) as Hwfi.
+  destruct (Z.eq_dec a b) as [<-|Hne].
+  { (* empty slice *)
+    exists (mk_imap [] [] 0). split; [|split].
+    - unfold getitem_slice. destruct (a >=? 0) eqn:E1; [|lia]. destruct (Z.min a a <? 0) eqn:E3; [lia|].
+      destruct (a >=? a) eqn:E4; [|lia]. reflexivity.
+    - apply WF_nogap. lia.
+    - rewrite abs_nogap by lia. unfold msub. replace (Z.to_nat (a - a)) with O by lia. reflexivity. }
+  assert (Hlt : a < b) by lia.
+  rewrite getitem_slice_unfold by lia. cbv zeta. rewrite post_init_nogap.
+  pose proof (n_nonneg m) as Hn.
+  assert (Hzl : zlen (msub (abs m) a b) = b - a).
+  { rewrite <- zslice_msub. apply zlen_zslice; [lia|lia|rewrite zlen_abs; auto]. }
+  (* a result without gaps is right as soon as no gap of [m] meets [a, b) *)
+  assert (Hnogap : (forall x, a <= x < b -> forall j, 0 <= j < num_gaps m -> ~ (gs m j <= x < ge m j)) ->
+          exists m', Ok (mk_imap [] [] (b - a)) = Ok m' /\ WF m' /\ abs m' = msub (abs m) a b).
+  { intros Hno. exists (mk_imap [] [] (b - a)). split; [reflexivity|]. split; [apply WF_nogap; lia|].
+    rewrite abs_nogap by lia. apply eq_repeat_pointwise; [exact Hzl|].
+    intros i Hi. rewrite <- zslice_msub. rewrite znth_zslice by lia.
+    apply abs_not_in_gap; [auto|lia|]. apply Hno. lia. }
+  destruct (num_gaps m =? 0) eqn:En.
+  { apply Hnogap. intros x Hx j Hj. lia. }
+  change (znth 0 (gap_pos m) 0) with (P m 0).
+  rewrite (zlast_gp m) by lia. rewrite (zlast_cum m Hwfi) by lia. fold (ge m (num_gaps m - 1)).
+  destruct ((b <? P m 0) || (a >=? ge m (num_gaps m - 1))) eqn:Eout.
+  { apply Hnogap. intros x Hx j Hj Hc. apply orb_prop in Eout. destruct Eout as [E|E].
+    - pose proof (gs_mono_le m Hwfi 0 j). pose proof (gs_0 m). lia.
+    - pose proof (ge_mono_le m Hwfi j (num_gaps m - 1)). lia. }
+  apply orb_false_elim in Eout. destruct Eout as (Eo1 & Eo2).
+  assert (Hlast : a < ge m (num_gaps m - 1)) by lia.
+  destruct (sb_l_spec m Hwf a ltac:(lia) Hlast) as (Hl & Hl2 & Hl3).
+  set (l := ss_left (gap_ends m) a) in *.
+  rewrite !(pyget_nonneg _ l) by lia.
+  rewrite (znth_gap_starts m Hwfi) by lia. rewrite (znth_gap_ends m Hwfi) by lia.
+  destruct ((gs m l <=? a) && (a <? ge m l) && (b <=? ge m l)) eqn:Esingle.
+  { (* the whole slice lies inside gap [l] *)
+    rewrite post_init_onegap. exists (mk_imap [0] [b - a] 0). split; [reflexivity|]. split; [apply WF_onegap; lia|].
+    rewrite abs_onegap by lia. apply eq_repeat_pointwise; [exact Hzl|].
+    intros i Hi. rewrite <- zslice_msub. rewrite znth_zslice by lia.
+    apply (abs_in_gap m Hwf (a + i) l); lia. }
+  destruct (sb_start m Hwf a b ltac:(lia) Hlast) as (bg & d1 & Estart & HB1 & HB2 & HB3 & HD1).
+  fold l in Estart. rewrite Estart.
+  apply (sb_stop m Hwf a b ltac:(lia) Hb ltac:(lia) Hlast bg d1 HB1 HB2 HB3 HD1).
+Qed.
+
+(** Python's index conventions on top of it: [None], negative bounds *)
+Definition py_bound (len : Z) (dflt : Z) (o : option Z) : Z :=
+  match o with None => dflt | Some v => if v <? 0 then len + v else v end.
+
+Lemma getitem_slice_norm m oa ob :
+  let a := py_bound (len m) 0 oa in
+  let b := py_bound (len m) (len m) ob in
+  0 <= len m -> 0 <= a -> 0 <= b ->
+  getitem_slice m oa ob = getitem_slice m (Some a) (Some b).
+Proof.
+  unfold py_bound. destruct oa as [va|]; destruct ob as [vb|]; cbv zeta.
+  - destruct (va <? 0) eqn:E1; destruct (vb <? 0) eqn:E2; intros Hl Ha Hb; unfold getitem_slice;
+      repeat match goal with |- context [?x >=? 0] => destruct (x >=? 0) eqn:?; try lia end; reflexivity.
+  - destruct (va <? 0) eqn:E1; intros Hl Ha Hb; unfold getitem_slice;
+      repeat match goal with |- context [?x >=? 0] => destruct (x >=? 0) eqn:?; try lia end; reflexivity.
+  - destruct (vb <? 0) eqn:E2; intros Hl Ha Hb; unfold getitem_slice;
+      repeat match goal with |- context [?x >=? 0] => destruct (x >=? 0) eqn:?; try lia end; reflexivity.
+  - intros Hl Ha Hb; unfold getitem_slice;
+      repeat match goal with |- context [?x >=? 0] => destruct (x >=? 0) eqn:?; try lia end; reflexivity.
+Qed.
+
+Theorem slice_spec_python m oa ob :
+  WF m ->
+  let a := py_bound (len m) 0 oa in
+  let b := py_bound (len m) (len m) ob in
+  0 <= a -> 0 <= b <= len m ->
+  exists m', getitem_slice m oa ob = Ok m' /\ WF m' /\ abs m' = msub (abs m) a (Z.max a b).
+Proof.
+  intros Hwf a b Ha Hb.
+  assert (Hlen : 0 <= len m) by (rewrite <- zlen_abs by auto; apply zlen_nonneg).
+  rewrite (getitem_slice_norm m oa ob Hlen Ha ltac:(lia)). fold a. fold b.
+  destruct (Z_le_dec a b) as [Le|Gt].
+  - replace (Z.max a b) with b by lia. apply slice_spec; auto; lia.
+  - (* start beyond stop: the empty map, as for a Python slice *)
+    replace (Z.max a b) with a by lia. exists (mk_imap [] [] 0). split; [|split].
+    + unfold getitem_slice. destruct (a >=? 0) eqn:E1; [|lia]. destruct (b >=? 0) eqn:E2; [|lia].
+      destruct (Z.min a b <? 0) eqn:E3; [lia|]. destruct (a >=? b) eqn:E4; [|lia]. reflexivity.
+    + apply WF_nogap. lia.
+    + rewrite abs_nogap by lia. unfold msub. replace (Z.to_nat (a - a)) with O by lia. reflexivity.
+Qed.
